@@ -88,6 +88,14 @@ M=[
   'include/AIToolbox/Utils/Polytope.hpp',
   "if ( currValue > bestValue || ( currValue == bestValue && veccmp(std::invoke(p, *begin), std::invoke(p, *bestMatch)) > 0 ) ) {\n                bestMatch = begin;\n                bestValue = currValue;\n            }\n        }\n        if ( value ) *value = bestValue;\n        return bestMatch;\n    }\n\n    /**\n     * @brief This function returns an iterator pointing to the best Hyperplane for the specified corner",
   "if ( currValue > bestValue || ( currValue == bestValue && veccmp(std::invoke(p, *begin), std::invoke(p, *bestMatch)) < 0 ) ) {\n                bestMatch = begin;\n                bestValue = currValue;\n            }\n        }\n        if ( value ) *value = bestValue;\n        return bestMatch;\n    }\n\n    /**\n     * @brief This function returns an iterator pointing to the best Hyperplane for the specified corner"),
+ ('W1 Witness::addVariations forgets to subtract the replaced projection (wv op: model differs; and the real Witness then runs for minutes: reported as hangs)',
+  'include/AIToolbox/POMDP/Algorithms/Witness.hpp',
+  "auto v = vValues - projs[o][skip].values + projs[o][i].values;",
+  "auto v = vValues + projs[o][i].values;"),
+ ('PS1 not detected, by design: PERSEUS skips a belief only when strictly improved (differs on exact ties only; the value function is still consistent; check passes)',
+  'include/AIToolbox/POMDP/Algorithms/PERSEUS.hpp',
+  "if ( currentValue >= oldValue ) continue;",
+  "if ( currentValue > oldValue ) continue;"),
  ('H1 harmless: PBVI builds the per-action lists in reverse belief order',
   'include/AIToolbox/POMDP/Algorithms/PBVI.hpp',
   """        for ( const auto & b : bl )
